@@ -407,7 +407,7 @@ def spec_match_sym(name, pattern):
     return reach[n]
 
 
-PATS = [None, "*", "a", "a*", "*a", "\\*", "a\\*", ".", "a.", "\\", "a\\", "\\a", "**", "*.*"]
+PATS = [None, "", "*", "a", "a*", "*a", "\\*", "a\\*", ".", "a.", "\\", "a\\", "\\a", "**", "*.*"]
 
 
 PSETS = [[None, "a\\*"], [None, "p*"], [None, "a*"], PATS]
@@ -496,7 +496,11 @@ def build_inventories(ns, rich=False):
 TARGETS = ["a", "a*", "*", "ab", "\\*", "b", "*b"]
 
 
-def make_invlink(eng, nname, bases=(0,)):
+PATHS = ["", "zeta", "alpha", "zeta:std", "zeta:std:label", "*:std:doc", "*:*:doc", "nosuch", "zeta:py", "z*:s*:l*"]
+ENTRY_COORDS = [("zeta", "std", "label"), ("zeta", "std", "label"), ("alpha", "std", "doc")]
+
+
+def make_invlink(eng, nname, bases=(0,), paths=(0,)):
     """'inv:' links through the real render_link_inventory / get_inventory_matches / filter_inventories with an
     inventory whose entry names are symbolic: 0 matches -> one iref_missing warning and no reference; 1 -> reference to
     base_url + loc; > 1 -> one iref_ambiguous warning and the FIRST match in inventory order."""
@@ -507,7 +511,9 @@ def make_invlink(eng, nname, bases=(0,)):
     tsel = new_int(eng, "target", 0, len(TARGETS) - 1)
     explicit = new_int(eng, "explicit", 0, 1)
     bsel = new_int(eng, "base", 0, len(bases) - 1)
-    eng.witness_fn = lambda m: {"names": [eng.eval_model(m, x) for x in names], "target": TARGETS[eng.eval_model(m, tsel)], "explicit": eng.eval_model(m, explicit), "base": bases[eng.eval_model(m, bsel)]}
+    psel = new_int(eng, "path", 0, len(paths) - 1)
+    eng.witness_fn = lambda m: {"names": [eng.eval_model(m, x) for x in names], "target": TARGETS[eng.eval_model(m, tsel)], "explicit": eng.eval_model(m, explicit), "base": bases[eng.eval_model(m, bsel)],
+                               "path": paths[eng.eval_model(m, psel)]}
 
     def body():
         ns = [lift(x) for x in names]
@@ -517,8 +523,9 @@ def make_invlink(eng, nname, bases=(0,)):
         target = TARGETS[eng.concretize_int(tsel)]
         ex = bool(eng.concretize_int(explicit))
         bi = bases[eng.concretize_int(bsel)]
-        got = run_invlink(CR, CR.R["base"], ns, target, ex, bi=bi)
-        exp = [i for i, n in enumerate(ns) if T(spec_match_sym(n, target))]
+        pi = paths[eng.concretize_int(psel)]
+        got = run_invlink(CR, CR.R["base"], ns, target, ex, bi=bi, pi=pi)
+        exp = [i for i, n in enumerate(ns) if _coords_match(i, pi) and T(spec_match_sym(n, target))]
         check_invlink(eng, got, exp, ex, bi)
         if len(exp) != 1:
             eng.note("filter_nontrivial")
@@ -534,7 +541,13 @@ def T(v):
 BASES = ["https://base.invalid/root/", "https://base.invalid/root", None, "https://base.invalid/root/index.html/"]
 
 
-def run_invlink(CR, base, ns, target, explicit, real=False, bi=0):
+def _coords_match(i, pi):
+    """Do the inventory / domain / type of entry i match the link's path filter (omitted parts match everything)?"""
+    parts = PATHS[pi].split(":") if PATHS[pi] else []
+    return all(spec_match(ENTRY_COORDS[i][j], parts[j]) for j in range(min(3, len(parts))))
+
+
+def run_invlink(CR, base, ns, target, explicit, real=False, bi=0, pi=0):
     from docutils import nodes
     from markdown_it.token import Token
 
@@ -549,7 +562,7 @@ def run_invlink(CR, base, ns, target, explicit, real=False, bi=0):
 
     base.inventory.fetch_inventory = fetch
     try:
-        href = "inv:#" + target
+        href = "inv:" + PATHS[pi] + "#" + target
         if explicit:
             link = [Token("link_open", "a", 1, attrs={"href": href}), Token("text", "", 0, content="linktext"), Token("link_close", "a", -1)]
         else:
@@ -600,6 +613,8 @@ def families(tier, seed):
                         args=dict(nname=nn), nontrivial="filter_nontrivial", required=(nn <= 1 if q else nn <= 2), max_forks=20000))
     F.append(Family("L/bases", make_invlink, "inv: link against 3 entries with 1 symbolic name char each, base URL from %r (with / without trailing slash, none)" % (BASES,), args=dict(nname=1, bases=(0, 1, 2, 3)),
                     nontrivial="filter_nontrivial", max_forks=40000))
+    F.append(Family("L/paths", make_invlink, "inv: link whose path part filters inventory / domain / type: %r, against 3 entries with 1 symbolic name char each in two inventories" % (PATHS,), args=dict(nname=1, paths=tuple(range(len(PATHS)))),
+                    nontrivial="filter_nontrivial", max_forks=40000))
     F.append(Family("F/colon-types", make_filter, "inventories with an object type containing ':' ('cm' / 'variable:cache'), 2 symbolic names of 1 char, domain and type patterns from %r x %r" % (PSETS_RICH[1], PSETS_RICH[2]),
                     args=dict(nname=1, rich=True), nontrivial="filter_nontrivial", max_forks=40000))
     for nn in ([1, 2] if q else [2, 3]):
@@ -636,10 +651,10 @@ def replay(label, witness):
         if len(set(ns)) != 3:
             return None
         try:
-            got = run_invlink(CR, rbase, ns, target, ex, real=True, bi=witness.get("base", 0))
+            got = run_invlink(CR, rbase, ns, target, ex, real=True, bi=witness.get("base", 0), pi=witness.get("path", 0))
         except Exception as e:  # noqa
             return ("C19/invlink-exception:%s" % type(e).__name__, "%r" % (e,))
-        exp = [i for i, n in enumerate(ns) if spec_match(n, target)]
+        exp = [i for i, n in enumerate(ns) if _coords_match(i, witness.get("path", 0)) and spec_match(n, target)]
 
         class CE:
             def require(self, c, label, detail=""):
